@@ -62,7 +62,10 @@ ReadKeysetsMore ==
     Keyset(U32(1), <<Key(KeyData(S("t"), <<0>>, 1), -1, U32(1), 9)>>),
     Keyset(HexToBytes("7fffffff"), <<KEd, KAes>>),
     Keyset(U32(16384), <<Key(KeyData(S("t"), [i \in 1..20 |-> 250 - i], 6), 1, U32(16384), 1), Key(KeyData(S("t"), <<>>, 1), 1, U32(16384), 1)>>),
-    Keyset(U32(127), <<Key(KeyData(S("x"), <<255>>, 1), 1, U32(127), 1)>>)>>
+    Keyset(U32(127), <<Key(KeyData(S("x"), <<255>>, 1), 1, U32(127), 1)>>),
+    Keyset(U32(1), <<Key(KeyData(S("t"), <<1>>, 1), 1, U32(1), 1), Key(KeyData(S("t"), <<1>>, 1), 1, U32(1), 1)>>),
+    Keyset(HexToBytes("80000000"), <<Key(NoKeyData, 0, U32Zero, 0), Key(NoKeyData, 0, U32Zero, 0), Key(KeyData(<<>>, <<0>>, 0), 0, HexToBytes("80000000"), 0)>>),
+    Keyset(U32(300), <<K5[2], K5[3], K5[4], K0>>)>>
 ReadKeysets(thorough) == IF thorough THEN ReadKeysetsQuick \o ReadKeysetsMore ELSE ReadKeysetsQuick
 
 \* ================================================================== binary spellings
@@ -191,7 +194,7 @@ OnKeyData(top, i, F(_)) == OnKey(top, i, LAMBDA k : JSet(k, "keyData", F(JGet(k,
 
 KeyIdValues ==
   <<JNum("-1"), JNum("-0"), JNum("4294967296"), JNum("4294967295"), JNum("99999999999999999999"), JNum("1.5"), JNum("1.0"), JNum("1e2"), JNum("1E+2"), JNum("100e-2"),
-    JNum("0.0"), JNum("5e-1"), JNum("42949672950e-1"), JNum("01"), JNum("1."), JNum(".5"), JNum("+1"), JNum("1e"), JNum("0x10"),
+    JNum("0.0"), JNum("5e-1"), JNum("42949672950e-1"), JNum("01"), JNum("1."), JNum(".5"), JNum("+1"), JNum("1e+"), JNum("0x10"),
     JS("1"), JS("0"), JS("-1"), JS("1.0"), JS("1e2"), JS(" 1"), JS("1 "), JS(""), JS("0x1"), JS("+1"), JS("01"), JS("4294967295"), JS("4294967296"),
     JTrue, JList(<<>>), JList(<<JNum("1")>>), JObj(<<>>), JNull>>
 EnumValues ==
@@ -208,6 +211,11 @@ TopValues == <<JNull, JList(<<>>), JS("x"), JNum("5"), JObj(<<>>), JTrue, JList(
 UnknownNames == <<"foo", "KeyId", "keyid", "key_Id", "keysetInfo", "encryptedKeyset", "keyInfo", "", "primaryKeyID", "Key", "type_Url", "typeURL">>
 
 JV(lab, shape, v) == [lab |-> lab, shape |-> shape, v |-> v]
+\* number tokens with an exponent marker and no digits behind it: not JSON (RFC 8259 section 6); kept apart, in few cases, because the
+\* real reader accepts them (known finding: every occurrence is a reported mismatch)
+EmptyExponentCases(ks) ==
+  {JV("emptyExponent", "object", OnKey(EncodeJson(ks), 1, LAMBDA k : JSet(k, "keyId", v))) : v \in {JNum("1e"), JNum("12E"), JNum("1.0e")}}
+  \cup {JV("emptyExponent", "ws", OnKey(EncodeJson(ks), 1, LAMBDA k : JSet(k, "status", JNum("1e")))), JV("emptyExponent", "object", JSet(EncodeJson(ks), "primaryKeyId", JNum("0e")))}
 JsonVariants(ks) ==
   LET n == Len(ks.keys)
       canon == EncodeJson(ks)
